@@ -4,8 +4,9 @@ MC  : MC_Zerv over ZervModel - the action property HigherLevelsUnchanged for eve
       the precedence walk, the closed-form law of the property ("value = override, else reset
       value if a higher level bumped, else start; plus bump") against the stepwise machine,
       errors produce no result, the schema stays valid, the smart tier is a function of
-      (dirty, distance, pre-release, post) - in three bounded argument spaces (names / index /
-      vcs).
+      (dirty, distance, pre-release, post) - in five bounded argument spaces (names / index /
+      vcs / order = custom precedence orders incl. one with levels left out / tmpl = flag values
+      that are templates over the pre-bump snapshot).
 Gen : one REPLAY line per behaviour; the harness turns the arguments into a real argv (flag
       order shuffled twice, optional-value and = forms varied, tag in SemVer or PEP 440
       spelling), runs clap + run_version_pipeline with --output-format zerv and compares every
@@ -43,8 +44,8 @@ def trace_key(ev):
 
 def run(tier):
     v = core.Verdict("C05")
-    modes = [("names", "{0, 1, 2}"), ("index", "{0}"), ("vcs", "{0}")] if tier == "quick" else \
-            [("names", "{0, 1, 2, 3}"), ("index", "{0}"), ("vcs", "{0}")]
+    modes = [("names", "{0, 1, 2}"), ("index", "{0}"), ("vcs", "{0}"), ("order", "{0}"), ("tmpl", "{0}")] if tier == "quick" else \
+            [("names", "{0, 1, 2, 3}"), ("index", "{0}"), ("vcs", "{0}"), ("order", "{0}"), ("tmpl", "{0}")]
     states = trans = evals = nontrivial = 0
     samples = []
     for mode, choices in modes:
@@ -83,7 +84,9 @@ def run(tier):
                     "index = one or two index-addressed operations (sections x kinds x in/out-of-range and negative "
                     "indices x numeric/text/negative/absent values) on a schema with var/uint/str/ts/VCS/custom "
                     "components x by-name combinations; vcs = distance/dirty/no-dirty/clean/branch/timestamp/"
-                    "context-control flags x 8 presets x start versions. Each runs under two flag permutations. "
+                    "context-control flags x 8 presets x start versions; order = 4 precedence orders x bump subsets x index "
+                    "operations; tmpl = {{ major }} / {{ minor }} / {{ patch }} / {{ distance }} / {{ post }} as flag values. "
+                    "Each runs under two flag permutations. "
                     "non-trivial = the result differs from the start version. Trace: %d random runs."
                     % (", both" if tier != "quick" else "", tev),
                exhaustive=True, recorded_events=tev)
